@@ -464,23 +464,7 @@ func check(c isoCase) (msg, discard string) {
 
 // ---------------------------------------------------------------------------
 
-var mutating = []string{
-	"add", "sort", "sort_by(.a?)", "reverse", "flatten", ".[1:]", ".[:2] + [9]", "to_entries", "walk(.)", "del(.[0])", ".[0] = 9", ". + [1]", ".[1:] |= map(.)", "map_values(.)", "unique", "group_by(.)",
-	"transpose", "[.[]]", ".[:1] as $x | $x + [5]", ".a += 1", "delpaths([[0]])", "setpath([0]; 1)", "[limit(2; .[])]", "first(.[])", "tojson", ".. |= .", "[paths]", "getpath([\"a\"]) |= 5", ".a |= . + [7]",
-	".a[1:] = [8]", ".c[0] = 1", "del(.a[0], .d)", ".b.a = 2", ".b + {z: 1}", ".b * {a: {q: 1}}", "[.[] | arrays | . + [0]]", ".a + .d", "[.a, .c] | add", ".[0] + .[1]", "map(arrays | .[:1] + [6])",
-	"$v", "$v + [1]", "$v | .[0] = 5", "$v | sort", "$v | del(.[0])", "[$v, .]", ". as $x | $v | . + $x", "$v[1:] + [2]", "($v | add) as $s | [$s]", "$v | to_entries", "$v | map_values(. + 1)?", "$v | .[1:] |= [9]",
-	"[.[] | .[0]? = 1]", ".[] |= .", "(.a, .c) |= (.[0] = 7)?", "del(.[]?[0]?)", "to_entries | from_entries", "with_entries(.value |= .)", "[.[]?] | sort | .[0] = 1", ".a as [$h] | [$h] + .a", "[.a[], 5]",
-	".[2:] + .[:2]", "[.[1:], .[:1]] | add", "[foreach .[] as $x ([]; . + [$x])]", "[foreach .[]? as $x ([]; . + [$x]; .[0] = 0)]", "reduce .[]? as $x ([]; . + [$x]) | .[0] = 1", "[limit(3; repeat(.[:1]))]",
-	"[.[]?, .[]?] | unique",
-	"[100000000000000000000, 200000000000000000000] | add", "100000000000000000000 as $x | [$x, $x, $x] | add", "[.[]? | numbers] | add", "[.[]?, .[]?] | map(numbers) | add", "[$v[]? | numbers] | add",
-	"reduce (.[]? | numbers) as $x (0; . + $x)", "[.[]? | numbers | . + 100000000000000000000] | add", "[.[]? | numbers | -.] | add", "[.[]? | numbers | . * 100000000000000000000] | (add, add)", "[.[]? | numbers] | (min, max, add, sort)",
-	"[.[]? | numbers | abs] | add", "([.[]? | numbers] | add) as $s | [$s, $s] | add", "[.[]? | numbers | tostring | tonumber] | add", "[limit(3; .[]? | numbers)] | add", "[.[]? | numbers] | join(\",\")?",
-	"[1,2,3] | .[0] = 9", "{\"a\":[1,2]} | .a += [3]", "[[1,2],[3]] | .[0] |= . + [4]", "[3,1,2] | sort", "{\"a\":{\"b\":1}} | del(.a.b)", "[1,2,3] as $c | $c | .[1:] = [7]", "[[1,2],[3]] | add | .[0] = 5",
-	"{\"a\":[1,2]} as $c | [$c, ($c | .a[0] = 0), $c]", "[[3,1],[2]] | map(sort)", "[1,2,3] | del(.[0])", "[1,2,3] | to_entries | .[0].value = 9", "{\"a\":{\"b\":1}} | .a.c = 2 | .a", "[[1,2],[3]] | flatten | .[0] = 0",
-	"[[1,2]] | .[0] as $x | ($x | .[0] = 9), $x", "{\"a\":[1,2]} | [.a, (.a |= reverse)]", "[1,2,3][1:] | .[0] = 0", "[[1,2,3][1:], [1,2,3][:2]] | add", "min_by(.a?)", "[.[]? | tojson | fromjson]", "tostream", "[tostream] | fromstream(.[])", "path(..)", "[splits(\"a\")]?", "ltrimstr(\"a\")", "ascii_downcase?", "@json", "[.[] | numbers] | add",
-	"{a: .a, b: .a} | .a[0] = 1", "[., .] | .[0][0] = 1", "[., .] | .[0] |= del(.[0])", "{x: .} | .x.a = 1", "[.] | flatten(1) | .[0] = 1", "(.a // .) | .[0] = 1", "[.[]?][:2] | .[0] = 1", "(.[:2] | .[0] = 1), .", "(.a |= sort), .a",
-	"(.a |= reverse), (.a |= .[1:])", "(del(.a[0])), .a, (.a += [1])", "[(.a, .a) |= . + [1]]", "(.[1:] = [1]), (.[:1] = [2]), .", "[.[]? += 1]?", "(.[0] |= empty), .", "[.. | arrays | .[:1]]", "[.. | arrays] | map(. + [1])",
-}
+var mutating = gen.MutatingPrograms
 
 func specGen() *rapid.Generator[inputSpec] {
 	elem := gen.Value(gen.Opt{Reps: true, MaxDepth: 2, MaxWidth: 3, SmallInts: true})
